@@ -25,6 +25,15 @@ def gm : List String := ["gm.test"]
 /-- the certificates of harness/c08.go (`c08pki`) and harness/tls.go (`mkGMPKI`) -/
 def table : List (Nat × PCert) :=
   [ (1, ⟨caMain, true⟩), (2, ⟨caOther, true⟩),
+    -- harness/tlsinter.go: the intermediate CA the root issued, a CA certificate of the same name with another key
+    -- issued by the other CA, the intermediate's name and key in an expired certificate; end-entity certificates
+    -- issued by the intermediate
+    (3, ⟨mk 3 300 100 2400 2000 (-48) 48 true 96 [] "main intermediate CA" [], true⟩),
+    (4, ⟨mk 4 300 200 2500 2100 (-48) 48 true 96 [] "main intermediate CA" [], true⟩),
+    (5, ⟨mk 5 300 100 2400 2000 (-72) (-1) true 96 [] "main intermediate CA" [], true⟩),
+    (80, ⟨mk 80 110 300 2401 2400 (-24) 24 false kuS gm "gm.test" [1], true⟩),
+    (81, ⟨mk 81 111 300 2402 2400 (-24) 24 false kuE gm "gm.test" [1], true⟩),
+    (82, ⟨mk 82 182 300 2403 2400 (-24) 24 false kuS [] "inter client" [2], true⟩),
     (10, ⟨mk 10 110 100 2001 2000 (-24) 24 false kuS gm "gm.test" [1], true⟩),          -- main sign
     (11, ⟨mk 11 111 100 2002 2000 (-24) 24 false kuE gm "gm.test" [1], true⟩),          -- main enc
     (12, ⟨mk 12 112 100 2003 2000 (-24) 24 false kuS [] "main client" [2], true⟩),      -- main client
@@ -76,6 +85,8 @@ def ccertOf : String → Option (List Nat × Key)
   | "expired" => some ([70], 2003) | "notyet" => some ([71], 2003) | "wrongeku" => some ([72], 2003)
   | "wrongkey" => some ([12], 2950)
   | "chainlast" => some ([12, 22], 2103)   -- victim's certificate first, attacker's certificate and key last
+  | "viainter" => some ([82, 3], 2403)      -- issued by the intermediate CA, sent with it
+  | "viainter-nochain" => some ([82], 2403) -- … sent alone
   | _ => none
 
 /-- server configuration of the s-… attacks: (certificate 0, its private key, certificate 1, its private key) -/
@@ -120,7 +131,26 @@ def serverOf : String → Option (Nat × Key × Nat × Key)
   | "s-pinned-wrongname" => some (44, 2001, 45, 2002)
   | "s-pinned-wrongeku-sign" => some (51, 2001, 11, 2002)
   | "s-pinned-other" => some (30, 2301, 31, 2302)          -- genuine certificates of the CA, but not the pinned ones
+  -- certificates issued by the intermediate CA; the client trusts the root only
+  | "s-inter-ok" | "s-inter-ok-both" | "s-inter-ok-signchain" | "s-inter-ok-third" | "s-inter-missing" | "s-inter-foreign"
+  | "s-inter-expired" => some (80, 2401, 81, 2402)
   | _ => none
+
+/-- what follows the end-entity certificate in the chain of key pair 0, of key pair 1, and further entries of
+    `Config.Certificates` (harness/c08.go, harness/tlsinter.go `interLayout`) -/
+def serverTails : String → List Nat × List Nat × List (List Nat)
+  | "s-untrusted-withca" => ([], [2], [])     -- its own CA: not a trust anchor of the client
+  | "s-inter-ok" => ([], [3], [])
+  | "s-inter-ok-both" => ([3], [3], [])
+  | "s-inter-ok-signchain" => ([3], [], [])
+  | "s-inter-ok-third" => ([], [], [[3]])
+  | "s-inter-foreign" => ([], [4], [])
+  | "s-inter-expired" => ([], [5], [])
+  | _ => ([], [], [])
+
+def serverChains (attack : String) (c0 c1 : Nat) : List (List Nat) :=
+  let t := serverTails attack
+  (c0 :: t.1) :: (c1 :: t.2.1) :: t.2.2
 
 def skeAttacks : List String := ["ske-otherrandoms", "ske-otherclientrandom", "ske-otherserverrandom", "ske-swaprandoms",
   "ske-othercert", "ske-nolen", "ske-by-enckey", "ske-by-otherkey", "ske-empty", "ske-replay"]
@@ -278,7 +308,7 @@ def authOp (args : List String) : String :=
               else ⟨0, (if attack = "s-wildcard-deep" then "a.gm.test" else "gm.test"), false, "", []⟩),
             suites := [suite, other], ext := 7, cert := chain, key := ckey, random := random, pms := pms }
         let mkServer (random : Nat) : Server :=
-          { certs := [c0, c1], encDer := c1, signKey := k0, decKey := k1, clientAuth := pol, clientCAs := [caMain], now := 0,
+          { certs := certList (serverChains attack c0 c1), encDer := c1, signKey := k0, decKey := k1, clientAuth := pol, clientCAs := [caMain], now := 0,
             suites := gmSuites, random := random, ext := 9, certReq := (3, 100) }
         let known := attack == "honest" || attack.startsWith "s-" || skeAttacks.contains attack || attack == "cke-forge" ||
           cvAttacks.contains attack || evilAttacks.contains attack ||
@@ -295,11 +325,49 @@ def authOp (args : List String) : String :=
     | _, _, _, _ => "bad-op"
   | _ => "bad-op"
 
+def hex4 (n : Nat) : String :=
+  let d (k : Nat) : Char := let x := (n / 16 ^ k) % 16; if x < 10 then Char.ofNat (48 + x) else Char.ofNat (87 + x)
+  String.ofList [d 3, d 2, d 1, d 0]
+
+/-- `hsinter <mode> <suite> <layout> <auth> <ccert> <src> <payload>` (harness/c06inter.go, property C06): server
+    certificates issued by the intermediate CA, supplied in one of the layouts; client and server trust the root only.
+    The verdict is that of `Model.HandshakeAuth.run` (the GMSSL-only and the auto-switch server run the same code for a
+    GMSSL ClientHello; static configuration and callbacks yield the same two chains). -/
+def hsinterOp (args : List String) : String :=
+  match args with
+  | [mode, suiteS, layout, authS, ccS, src, _pay] =>
+    let suite? : Option Nat := if suiteS == "e013" then some 0xe013 else if suiteS == "e053" then some 0xe053 else none
+    let pol? : Option Policy := match authS with
+      | "0" => some .noClientCert | "1" => some .requestClientCert | "2" => some .requireAnyClientCert
+      | "3" => some .verifyClientCertIfGiven | "4" => some .requireAndVerifyClientCert | _ => none
+    let chains? : Option (List (List Nat)) := match layout with
+      | "gmt" => some [[80], [81, 3]] | "both" => some [[80, 3], [81, 3]] | "signchain" => some [[80, 3], [81]]
+      | "none" => some [[80], [81]] | _ => none
+    let cc? : Option (List Nat × Key) := match ccS with
+      | "0" => some ([], 0) | "1" => some ([12], 2003) | "3" => some ([82, 3], 2403) | "4" => some ([82], 2403) | _ => none
+    match suite?, pol?, chains?, cc? with
+    | some suite, some pol, some chains, some (chain, ckey) =>
+      if !(mode == "gm" || mode == "auto") || !(src == "s" || src == "c") then "bad-op" else
+      let c : Client :=
+        { insecureSkipVerify := false, roots := [caMain], opts := ⟨0, "gm.test", false, "", []⟩, suites := [suite], ext := 7,
+          cert := chain, key := ckey, random := 1001, pms := [5005] }
+      let s : Server :=
+        { certs := certList chains, encDer := 81, signKey := 2401, decKey := 2402, clientAuth := pol, clientCAs := [caMain], now := 0,
+          suites := [suite], random := 2002, ext := 9, certReq := (3, 100) }
+      let o := run P c s {}
+      if o.clientDone && o.serverDone then
+        let n := match o.sview.bind (·.cert) with | some l => l.length | none => 0
+        s!"ok 0101 {hex4 suite} {n}"
+      else "fail"
+    | _, _, _, _ => "bad-op"
+  | _ => "bad-op"
+
 end C08
 
 def handshakeAuthDispatch (toks : List String) : Option String :=
   match toks with
   | "auth" :: rest => some (C08.authOp rest)
+  | "hsinter" :: rest => some (C08.hsinterOp rest)
   | _ => none
 
 end Driver
